@@ -34,6 +34,10 @@ def shards(tier, seed):
 		out.append(dict(name='huge', kind='huge'))
 	out.append(dict(name='asan-struct', kind='struct', sub=777, rounds=10 if tier == 'quick' else 60, maxsize=5000, sanitizer='asan'))
 	out.append(dict(name='asan-exh', kind='exh', dta='u2', dtb='i8', sanitizer='asan'))
+	for s_ in out:
+		if s_.get('kind') in ['struct'] and not s_.get('sanitizer'):
+			s_['contracts'] = ['C02']
+	out.append(dict(name='suite-contracts', kind='suite-contracts', which=['C02'], tests=['tests/test_metric.py']))
 	return out
 
 
